@@ -7,8 +7,10 @@ import (
 	"math/rand"
 	"reflect"
 	"runtime"
+	"strings"
 	"sync"
 	"sync/atomic"
+	"time"
 	"unsafe"
 
 	"github.com/mutagen-io/mutagen/pkg/multiplexing/ring"
@@ -518,7 +520,89 @@ func coreAlphabet() []rop {
 	}
 }
 
+// probe publishes what a worker is executing, so that an operation that never
+// returns (an endless loop inside the buffer) can be reported with its input.
+type probe struct {
+	ticks    atomic.Int64
+	capacity atomic.Int64
+	depth    atomic.Int32
+	ops      [12]atomic.Int32
+	alphabet atomic.Pointer[[]rop]
+	note     atomic.Pointer[string]
+	idle     atomic.Bool
+}
+
+func (st *c26State) newProbe() *probe {
+	p := &probe{}
+	p.idle.Store(true)
+	st.probeMu.Lock()
+	st.probes = append(st.probes, p)
+	st.probeMu.Unlock()
+	return p
+}
+
+// watchdog reports a worker that has been inside one operation for the whole
+// control-relative bound and ends the run (the goroutine cannot be stopped).
+func (st *c26State) watchdog(finish func()) {
+	type seen struct {
+		ticks int64
+		at    time.Time
+	}
+	last := map[*probe]seen{}
+	for {
+		time.Sleep(500 * time.Millisecond)
+		st.probeMu.Lock()
+		probes := append([]*probe(nil), st.probes...)
+		st.probeMu.Unlock()
+		for _, p := range probes {
+			t := p.ticks.Load()
+			if p.idle.Load() {
+				delete(last, p)
+				continue
+			}
+			l, ok := last[p]
+			if !ok || l.ticks != t {
+				last[p] = seen{t, time.Now()}
+				continue
+			}
+			if time.Since(l.at) < hangBound {
+				continue
+			}
+			if !hb.healthy(l.at) {
+				last[p] = seen{t, time.Now()}
+				st.r.Inconclusive("an operation appeared stuck while the control heartbeat was unhealthy")
+				continue
+			}
+			var names []string
+			var ops []rop
+			method := "?"
+			if a := p.alphabet.Load(); a != nil {
+				for d := 0; d < int(p.depth.Load()); d++ {
+					o := (*a)[p.ops[d].Load()]
+					names = append(names, o.String())
+					ops = append(ops, o)
+				}
+			} else if n := p.note.Load(); n != nil {
+				names = append(names, *n)
+			}
+			if len(ops) > 0 {
+				method = methodNames[ops[len(ops)-1].Kind]
+			} else if len(names) > 0 {
+				method = strings.SplitN(names[len(names)-1], "(", 2)[0]
+			}
+			st.r.Violation(map[string]string{"rule": "operation-does-not-return", "method": method},
+				fmt.Sprintf("capacity %d: the last operation of %v has not returned for %s (control heartbeat healthy, max gap %s)", p.capacity.Load(), names, hangBound, hb.maxGap(l.at)),
+				map[string]any{"capacity": p.capacity.Load(), "sequence": names, "ops": ops, "goroutines": goroutineDump()})
+			finish()
+		}
+	}
+}
+
+var methodNames = []string{"Write", "WriteByte", "Read", "ReadByte", "Reset", "ReadNFrom", "WriteTo"}
+
 type c26State struct {
+	probeMu sync.Mutex
+	probes  []*probe
 	r       *vk.Run
 	nodes   atomic.Int64
 	sigMu   sync.Mutex
@@ -558,7 +642,7 @@ func (st *c26State) violation(capacity int, path []rop, what string) {
 		names[i] = o.String()
 	}
 	last := path[len(path)-1]
-	method := []string{"Write", "WriteByte", "Read", "ReadByte", "Reset", "ReadNFrom", "WriteTo"}[last.Kind]
+	method := methodNames[last.Kind]
 	st.r.Violation(map[string]string{"rule": "model-disagreement", "method": method},
 		fmt.Sprintf("capacity %d, after %v: %s", capacity, names, what),
 		map[string]any{"capacity": capacity, "sequence": names, "ops": path})
@@ -584,6 +668,11 @@ func (st *c26State) exhaust(capacity int, alphabet []rop, maxLen int, useClone b
 			var count int64
 			path := make([]rop, 0, maxLen)
 			ar := &arena{}
+			pr := st.newProbe()
+			pr.capacity.Store(int64(capacity))
+			pr.alphabet.Store(&alphabet)
+			pr.idle.Store(false)
+			defer pr.idle.Store(true)
 			// Per-depth copies of the buffer and the model (no allocation per node).
 			type level struct {
 				b     ring.Buffer
@@ -604,6 +693,9 @@ func (st *c26State) exhaust(capacity int, alphabet []rop, maxLen int, useClone b
 			var dfs func(b *ring.Buffer, f *fifo, src bytesrc, depth int)
 			dfs = func(b *ring.Buffer, f *fifo, src bytesrc, depth int) {
 				lv := &levels[depth+1]
+				if st.reports.Load() > 200 {
+					return // enough witnesses
+				}
 				for oi, o := range alphabet {
 					ns := src
 					if useClone {
@@ -613,6 +705,9 @@ func (st *c26State) exhaust(capacity int, alphabet []rop, maxLen int, useClone b
 						ns = replay(path, lv)
 					}
 					path = append(path, o)
+					pr.ops[depth].Store(int32(oi))
+					pr.depth.Store(int32(depth + 1))
+					pr.ticks.Add(1)
 					res := step(&lv.b, &lv.f, o, &ns, ar)
 					count++
 					if res.mismatch == "" && useClone {
@@ -637,6 +732,10 @@ func (st *c26State) exhaust(capacity int, alphabet []rop, maxLen int, useClone b
 				src := bytesrc{key: 0xc26}
 				path = path[:0]
 				path = append(path, alphabet[t.a])
+				pr.ops[0].Store(int32(t.a))
+				pr.ops[1].Store(int32(t.b))
+				pr.depth.Store(1)
+				pr.ticks.Add(1)
 				r1 := step(b, f, alphabet[t.a], &src, ar)
 				if r1.mismatch != "" {
 					if t.b == 0 {
@@ -649,6 +748,8 @@ func (st *c26State) exhaust(capacity int, alphabet []rop, maxLen int, useClone b
 					continue
 				}
 				path = append(path, alphabet[t.b])
+				pr.depth.Store(2)
+				pr.ticks.Add(1)
 				r2 := step(b, f, alphabet[t.b], &src, ar)
 				if r2.mismatch == "" && useClone {
 					r2.mismatch = drainCheck(b, f, ar)
@@ -749,6 +850,10 @@ func (st *c26State) randomSequence(idx int, rng *rand.Rand, ops int) {
 	local := map[string]struct{}{}
 	trail := make([]rop, 0, 24)
 	ar := &arena{}
+	pr := st.newProbe()
+	pr.capacity.Store(int64(capacity))
+	pr.idle.Store(false)
+	defer pr.idle.Store(true)
 	for i := 0; i < ops; i++ {
 		o := randomOp(rng, capacity, f.used())
 		if len(trail) == cap(trail) {
@@ -756,6 +861,9 @@ func (st *c26State) randomSequence(idx int, rng *rand.Rand, ops int) {
 			trail = trail[:len(trail)-1]
 		}
 		trail = append(trail, o)
+		desc := fmt.Sprintf("%s at fill %d (operation %d of random sequence %d)", o, f.used(), i, idx)
+		pr.note.Store(&desc)
+		pr.ticks.Add(1)
 		res := step(b, f, o, src, ar)
 		if res.mismatch == "" && (i%64 == 63 || i == ops-1) {
 			res.mismatch = drainCheck(b, f, ar)
@@ -786,9 +894,16 @@ func (st *c26State) randomSequence(idx int, rng *rand.Rand, ops int) {
 	st.addSig(local)
 }
 
+const c26Rule = "every operation sequence over the listed alphabet up to the stated length for capacities 0..3 (depth-first with a copy of the buffer per branch) plus random 10^4-operation sequences on capacities up to 70000, each step compared with a slice-backed FIFO model (n, err, Used, Free, Size, bytes returned, bytes handed to the writer, bytes taken from the reader, drained copy); evaluations = operations executed at distinct sequence positions; distinct = distinct (capacity, fill before, operation, result) tuples of the exhaustive part and (capacity class, fill state, operation shape) of the random part"
+
 func c26() {
 	r := vk.Start("C26", "exploration")
 	st := &c26State{r: r, sigs: map[string]struct{}{}}
+	go st.watchdog(func() {
+		r.Eval(int(st.nodes.Load()) + 1)
+		r.Sample(map[string]any{"note": "run ended by the watchdog: an operation did not return"})
+		r.Finish(c26Rule, 200)
+	})
 	useClone := cloneable()
 	r.Note("buffer_cloning", useClone)
 	full, core := fullAlphabet(), coreAlphabet()
@@ -840,5 +955,5 @@ func c26() {
 	r.Sample(map[string]any{"capacity": 2, "sequence": []string{"Write(2)", "ReadByte", "ReadNFrom(n=3,reader{avail=-1,chunk=1,EOF after data})", "WriteTo(writer{accepts=1})", "Read(3)"}, "checked": "n, err, Used, Free, Size after every operation and a drained copy"})
 	r.Sample(map[string]any{"capacity": 65548, "random": "10000 operations with sizes around 0, 1, what fits, one more than fits, capacity; readers with chunk 1/7/1000, EOF or error with or after the data; writers accepting a prefix"})
 	r.Assume("ReadNFrom and WriteTo are exercised with scripted readers/writers that return at least one byte per call while they have data and report their terminal condition either together with the last data or on the following call")
-	r.Finish("every operation sequence over the listed alphabet up to the stated length for capacities 0..3 (depth-first with a copy of the buffer per branch) plus random 10^4-operation sequences on capacities up to 70000, each step compared with a slice-backed FIFO model (n, err, Used, Free, Size, bytes returned, bytes handed to the writer, bytes taken from the reader, drained copy); evaluations = operations executed at distinct sequence positions; distinct = distinct (capacity, fill before, operation, result) tuples of the exhaustive part and (capacity class, fill state, operation shape) of the random part", 200)
+	r.Finish(c26Rule, 200)
 }
